@@ -1,9 +1,11 @@
 """C25: panic-site inventory (DESIGN.md 3.3) for the functions the VM model covers.
 
 Lists every panic-capable construct — `todo!`, `unimplemented!`, `unreachable!`, `panic!`,
-`assert*!`, `.unwrap()`, `.expect(`, `.assume(` (buggy: panics under debug_assertions),
-`with_capacity(`, slice/array indexing `x[i]`, unchecked binary `+ - *` — inside the modelled
-functions, keyed on (file, fn, token) -> count (not on line numbers), and compares it with the
+`assert*!`, `.unwrap()`, `.expect(`, `.assume(` / `bug!` (buggy: panic under debug_assertions),
+`with_capacity(`, slice/array indexing `x[i]`, unchecked binary `+ - *`, `/ %` — in EVERY function
+of the VM's non-test code (machine.rs, scope.rs, stack.rs, io.rs, data.rs, context.rs, error.rs),
+keyed on the multiset of (file, enclosing fn, kind of site) -> count (not on line numbers, so pure
+refactors inside a function do not disturb it), and compares it with the
 committed inventory `tools/inventory/C25.json`, where each site carries the model outcome it maps
 to.  The result is the generated constant `inventoryOk`; `Props/C25.lean` requires it to be `true`,
 so a new panic-capable construct in a modelled function (or a vanished one) breaks C25 — and only
@@ -15,11 +17,24 @@ from extract import read, strip_comments, Fail
 
 INV = Path(__file__).resolve().parent.parent / "inventory" / "C25.json"
 
-MODELLED = {
+# every function of these files (non-test code) is scanned; sites are keyed (file, fn, token)
+FILES = [
+    "crates/aranya-policy-vm/src/machine.rs",
+    "crates/aranya-policy-vm/src/scope.rs",
+    "crates/aranya-policy-vm/src/stack.rs",
+    "crates/aranya-policy-vm/src/io.rs",
+    "crates/aranya-policy-vm/src/data.rs",
+    "crates/aranya-policy-vm/src/context.rs",
+    "crates/aranya-policy-vm/src/error.rs",
+]
+
+# functions the model depends on by name: their disappearance is a hard failure of the translator
+MUST_EXIST = {
     "crates/aranya-policy-vm/src/machine.rs": [
         "validate_fact_schema", "fact_match", "from_module", "ipush", "ipop", "ipop_value", "ipeek",
         "ipeek_value", "validate_struct_schema", "step", "run", "set_pc_by_label", "setup_command",
-        "setup_function", "setup_action", "validate_fact_literal", "push_value", "pop_value", "peek_value",
+        "setup_function", "setup_action", "call_action", "call_command_policy", "call_seal", "call_open",
+        "validate_fact_literal", "push_value", "pop_value", "peek_value",
     ],
     "crates/aranya-policy-vm/src/scope.rs": [
         "enter_function", "exit_function", "enter_block", "exit_block", "get", "set", "clear",
@@ -39,6 +54,8 @@ TOKENS = [
     ("with_capacity(", r"\bwith_capacity\("),
     ("index[]", r"(?<![#&!\w])\b[a-z_][\w.]*(?:\(\))?\[[^\]\n]+\]"),
     ("unchecked +-*", r"[\w)\]]\s(?:\+|-|\*)\s[\w(]"),
+    ("div/rem", r"[\w)\]]\s(?:/|%)\s[\w(]"),
+    ("bug!", r"\bbug!\s*\("),
 ]
 
 
@@ -46,34 +63,46 @@ def strip_strings(src):
     return re.sub(r'"(?:[^"\\]|\\.)*"', '""', src)
 
 
-def fn_bodies(src, name, rel):
-    out = []
-    for m in re.finditer(r"\bfn\s+" + re.escape(name) + r"\b[^{;]*\{", src):
+def split_fns(src):
+    """[(fn name, body)] for every outermost `fn` with a body, plus ("<top-level>", rest)"""
+    out, rest, pos = [], [], 0
+    for m in re.finditer(r"\bfn\s+(\w+)\b[^{;]*\{", src):
+        if m.start() < pos:
+            continue  # nested fn: belongs to the enclosing one
         i = m.end(); depth = 1; j = i
         while depth and j < len(src):
             if src[j] == "{": depth += 1
             elif src[j] == "}": depth -= 1
             j += 1
-        out.append(src[i:j - 1])
-    if not out:
-        raise Fail(f"{rel}: modelled fn {name} not found")
+        out.append((m.group(1), src[i:j - 1]))
+        rest.append(src[pos:m.start()])
+        pos = j
+    rest.append(src[pos:])
+    out.append(("<top-level>", "\n".join(rest)))
     return out
 
 
 def scan():
     found = {}
-    for rel, fns in MODELLED.items():
+    for rel in FILES:
         src = strip_strings(strip_comments(read(rel)))
-        # drop the unit-test module
+        # drop unit-test modules (`#[cfg(test)] mod …` at the end of the file)
         k = src.find("#[cfg(test)]")
         if k >= 0:
             src = src[:k]
-        for fn in fns:
-            body = "\n".join(fn_bodies(src, fn, rel))
+        # attributes like #[derive(..)] / #[error("..")] are not code
+        src = re.sub(r"#!?\[[^\]]*\]", "", src)
+        fns = split_fns(src)
+        names = {n for n, _ in fns}
+        for need in MUST_EXIST.get(rel, []):
+            if need not in names:
+                raise Fail(f"{rel}: modelled fn {need} not found")
+        for fn, body in fns:
             for tok, rx in TOKENS:
                 n = len(re.findall(rx, body))
                 if n:
-                    found[f"{rel}::{fn}::{tok}"] = n
+                    key = f"{rel}::{fn}::{tok}"
+                    found[key] = found.get(key, 0) + n
     return found
 
 
